@@ -12,6 +12,7 @@
   * BDF control model (`Proofs/BdfLemmas.lean`, tied by X-bdf): `BdfCtl.newtonLoop_ode` — every corrector iteration started is
     counted exactly once.
 -/
+import IvpModel.Proofs.AcceptedCount
 import IvpModel.Proofs.BdfLemmas
 import IvpModel.Proofs.RadauLemmas
 import IvpModel.Proofs.CtlRk
